@@ -75,6 +75,7 @@ func checkC05(r *Run) {
 		exploreConc(r, g3, "", 30*time.Minute)
 	}
 	runSingleLoadPerRead(r)
+	runRequestKeepsItsState(r)
 	runWriterAfterEndings(r)
 	runStressD2(r)
 	runProtoProofs(r)
